@@ -87,8 +87,10 @@ REG.contract('bounds.make_distinct', params={}, modifies=['lb', 'ub', 'fuel'],
              trusted='make_distinct only tightens Bounded objects (decided by the bounded stand-in of C17)')
 
 # ------------------------------------------------------------------------------------------------ is_complete
+REG.macro('ed_emshape', ['self'],
+          f'isnone({EM}) or (len({EM}) == {M} + 1 and forall(r, 0, {M} + 1, len({EM}[r]) == {N} + 1))')
 REG.contract('EditDistance.is_complete', params={'self': 'ref[EditDistance]'}, returns='bool', pure=True,
-             requires=['ed_shape(self)'], ensures=['result == ed_complete(self)'])
+             requires=['ed_emshape(self)'], ensures=['result == ed_complete(self)'])
 
 # ------------------------------------------------------------------------------------------------ _add_node
 REG.contract(
